@@ -398,13 +398,19 @@ FN['ath'] = 'athlib.athlon_score'
 
 
 def c05_forms(unit):
-    if unit.sys in ('ty', 'qk'): return ['float', 'str2'] + (['m:ss.xx'] if unit.timed else [])
-    if unit.sys == 'sh': return ['str2', 'float']
-    if unit.sys == 'bg': return ['float', 'str2', 'm:ss.xx'] if unit.timed else ['float']
+    # 'strmin': the shortest text of the mark ('13.7', '14'), so that one sweep mixes one- and two-decimal texts
+    # (not for Tyrving, where fewer decimals mean hand timing: compared separately below)
+    if unit.sys == 'ty': return ['float', 'str2'] + (['m:ss.xx'] if unit.timed else [])
+    if unit.sys == 'qk': return ['float', 'str2', 'strmin'] + (['m:ss.xx'] if unit.timed else [])
+    if unit.sys == 'sh': return ['str2', 'float', 'strmin']
+    if unit.sys == 'bg': return ['float', 'str2', 'm:ss.xx', 'strmin'] if unit.timed else ['float']
     return ['float']
 
 
 def c05_arg(form, k):
+    if form == 'strmin':
+        t = s2(k).rstrip('0')
+        return t[:-1] if t.endswith('.') else t
     return k / 100.0 if form == 'float' else s2(k) if form == 'str2' else mss(k)
 
 
